@@ -70,6 +70,8 @@ func genC18(seed uint64, run int, tier string) *Plan {
 	if big {
 		ntasks = 1
 		p.Cfg.Variant = "big"
+	} else {
+		p.Cfg.Fine = fineKnob(seed, 15, 3)
 	}
 	sizes := func() (cs, length int) {
 		if big {
